@@ -48,6 +48,8 @@ theorem foldl_pres {α β : Type} (π : Stack → β) (f : Stack → α → Stac
   unfold sendSd; split; rfl; simp only []; split; rfl; split <;> rfl
 
 @[simp] theorem base_with_flushLog (s : Stack) (x : List (Dest × List SDEntry)) : base { s with flushLog := x } = base s := rfl
+@[simp] theorem base_with_refreshLog (s : Stack) (x : List (Addr × SvcKey × Nat × Nat)) : base { s with refreshLog := x } = base s := rfl
+@[simp] theorem base_with_found_refreshLog (s : Stack) (x : TStore SvcKey) (y : List (Addr × SvcKey × Nat × Nat)) : base { s with found := x, refreshLog := y } = base s := rfl
 @[simp] theorem base_with_subLog (s : Stack) (x : List (Addr × Nat × List Eventgroup)) : base { s with subLog := x } = base s := rfl
 @[simp] theorem base_with_findLog (s : Stack) (x : List (Nat × Nat)) : base { s with findLog := x } = base s := rfl
 @[simp] theorem base_with_subDup (s : Stack) (x : Bool) : base { s with subDup := x } = base s := rfl
@@ -226,7 +228,7 @@ theorem foldl_pres {α β : Type} (π : Stack → β) (f : Stack → α → Stac
 
 @[simp] theorem base_foundRefresh (s : Stack) (ttl : Nat) (a : Addr) (k : SvcKey) : base (s.foundRefresh ttl a k) = base s := by
   unfold foundRefresh
-  simp only [base_with_found, base_armTtl]
+  simp only [base_with_found_refreshLog, base_armTtl]
   split <;> simp
 
 @[simp] theorem base_handleOffer (s : Stack) (e : SDEntry) (a : Addr) : base (s.handleOffer e a) = base s := by
